@@ -3,6 +3,7 @@ package sample
 import (
 	"encoding/json"
 	"fmt"
+	"math"
 	"math/rand"
 	"strings"
 
@@ -377,6 +378,11 @@ func compare(a, b interface{}) (int, bool) {
 		return more, true
 	}
 
+	// Depending on the wire encoding a number may arrive as any of Go's numeric
+	// types (msgpack decodes unsigned integers to uint64 and 32-bit floats to
+	// float32); compare numbers by value, not by the type that carried them.
+	a, b = normalizeNumber(a), normalizeNumber(b)
+
 	switch at := a.(type) {
 	case int64:
 		switch bt := b.(type) {
@@ -462,4 +468,36 @@ func compare(a, b interface{}) (int, bool) {
 	}
 
 	return equal, false
+}
+
+// normalizeNumber maps the numeric types the decoders can produce onto the
+// ones compare handles: signed integers to int64, unsigned integers to int64
+// when they fit (float64 otherwise), float32 to float64.
+func normalizeNumber(v interface{}) interface{} {
+	switch n := v.(type) {
+	case int:
+		return int64(n)
+	case int8:
+		return int64(n)
+	case int16:
+		return int64(n)
+	case int32:
+		return int64(n)
+	case uint:
+		return normalizeNumber(uint64(n))
+	case uint8:
+		return int64(n)
+	case uint16:
+		return int64(n)
+	case uint32:
+		return int64(n)
+	case uint64:
+		if n <= math.MaxInt64 {
+			return int64(n)
+		}
+		return float64(n)
+	case float32:
+		return float64(n)
+	}
+	return v
 }
